@@ -1,10 +1,55 @@
 import Pendulum.Drv.Util
-/-! request handler for property C07 (stub until the property is built) -/
+import Pendulum.Model.Iso
+/-! request handler for property C07: `parse <rs|py> <iso | pub:<exact 0|1>:<tz seconds|none>> <encoded string>` -/
 namespace Pendulum.Drv.C07
-open Pendulum Pendulum.Drv
+open Pendulum Pendulum.Drv Pendulum.Iso
+
+def showOff : Option Int → String
+  | none => "none"
+  | some o => if -86400 < o ∧ o < 86400 then toString o else "x"
+
+def showR : R → String
+  | .ok v =>
+    match v.kind with
+    | .date => s!"ok date {v.y} {v.m} {v.d}"
+    | .time => s!"ok time {v.h} {v.mi} {v.s} {v.us} {showOff v.off}"
+    | .datetime => s!"ok datetime {v.y} {v.m} {v.d} {v.h} {v.mi} {v.s} {v.us} {showOff v.off}"
+  | .error .parserError => "err ParserError"
+  | .error .valueError => "err ValueError"
+  | .error (.other n) => "err " ++ n
+
+def backend? : String → Option Backend
+  | "rs" => some .rust
+  | "py" => some .py
+  | _ => none
+
+/-- the `now` date the harness passes to `pendulum.parse(..., now=…)` -/
+def nowDate : Int × Int × Int := (2001, 2, 3)
 
 def handle (_zs : Zones) (ws : List String) : Option String :=
   match ws with
+  | ["parse", b, opts, s] => do
+    let b ← backend? b
+    let s ← decStr s
+    let cs := s.toList
+    match opts.splitOn ":" with
+    | ["iso"] => some (showR (parseIso b cs))
+    | ["pub", ex, tz] =>
+      let tz : Option Int := if tz == "none" then none else tz.toInt?
+      some (showR (publicParse b (ex == "1") tz nowDate cs))
+    | _ => none
+  | ["fmt", b, meth, y, m, d, h, mi, s, us, off] => do
+    let b ← backend? b
+    let y ← y.toNat?; let m ← m.toNat?; let d ← d.toNat?; let h ← h.toNat?; let mi ← mi.toNat?; let s ← s.toNat?
+    let us ← us.toNat?
+    let utc := off == "utc"
+    let offS : Int ← if utc then some 0 else off.toInt?
+    let sep := if meth == "str" then ' ' else 'T'
+    let withUs := !(meth == "atom" || meth == "w3c")
+    let cs := rIsoformat sep withUs (utc && meth == "iso8601") y m d h mi s us (offS / 60)
+    let r := showR (publicParse b false none nowDate cs)
+    let e := encStr (String.ofList cs)
+    some (if r.startsWith "ok " then "ok " ++ e ++ " " ++ (r.drop 3).toString else r ++ " " ++ e)
   | _ => none
 
 end Pendulum.Drv.C07
